@@ -14,11 +14,11 @@ EXPLANATION = ("Static analysis: for every provided view kind K and factory F th
                "violation (the two polynomials are printed).")
 
 # kinds: tag -> (C++ type in namespace vf, number of probes)
-KINDS_QUICK = ["k_inter", "k_planar", "k_xystep", "k_pT", "k_packed", "k_bits7", "k_deref", "k_virt"]
-KINDS_ALL = ["k_inter", "k_gray16", "k_rgba32f", "k_planar", "k_planar16", "k_xstep", "k_xystep", "k_xyT", "k_pstep", "k_pT",
+KINDS_QUICK = ["k_inter", "k_planar", "k_xystep", "k_pT", "k_packed", "k_bits7", "k_deref", "k_virt", "k_g16step"]
+KINDS_ALL = ["k_inter", "k_gray16", "k_g16step", "k_rgba32f", "k_planar", "k_planar16", "k_xstep", "k_xystep", "k_xyT", "k_pstep", "k_pT",
              "k_packed", "k_packstep", "k_bits", "k_bits7", "k_bits1", "k_bitstep", "k_nth", "k_kth", "k_deref", "k_virt"]
 NPROBE = {"k_planar": 3, "k_planar16": 3, "k_pstep": 3, "k_pT": 3}
-CHAN_KINDS = ["k_inter", "k_gray16", "k_planar", "k_xstep", "k_xystep", "k_pstep", "k_xyT", "k_pT"]
+CHAN_KINDS = ["k_inter", "k_gray16", "k_g16step", "k_planar", "k_xstep", "k_xystep", "k_pstep", "k_xyT", "k_pT"]
 
 
 def load_spec():
@@ -100,7 +100,7 @@ def gen(kinds, spec, path, tier):
     for k in kinds:
         if k not in CHAN_KINDS:
             continue
-        nch = 1 if k == "k_gray16" else 3
+        nch = 1 if k in ("k_gray16", "k_g16step") else 3
         planar = k in NPROBE
         for c in range(nch):
             n += 1
